@@ -626,3 +626,44 @@ def walk_all(e):
                     for y in x:
                         out.extend(walk_all(y))
     return out
+
+
+def reveal_impls(ctx, facts, rule):
+    """Which opening routine each `Reveal` impl uses: on every malicious context (MAC-upgraded or DZKP-upgraded, sharded
+    or not) the impl must go through malicious_reveal (two copies of every missing share are compared); only the
+    semi-honest contexts may use semi_honest_reveal."""
+    ctx.rule(f"{rule}: every `impl Reveal<C> for ..` whose context C lives in protocol::context::malicious or dzkp_malicious calls malicious_reveal and nothing else that opens; impls for semi_honest / dzkp_semi_honest contexts call semi_honest_reveal")
+    n = 0
+    for p, b in sorted(facts.bodies.items()):
+        m = re.search(r"basics::reveal::Reveal<protocol::context::(\w+)::(\w+)<(.*?)>>>::generic_reveal::\{closure#0\}$", p)
+        if not m or facts.is_test_path(p):
+            continue
+        module = m.group(1)
+        opens = sorted({(F.callee(t)[0] or "").split("::")[-1] for bb, t in b.calls() if re.search(r"reveal::(malicious_reveal|semi_honest_reveal)$", F.callee(t)[0] or "")})
+        n += 1
+        ctx.count(bodies=1)
+        want = "malicious_reveal" if module in ("malicious", "dzkp_malicious") else "semi_honest_reveal"
+        short = re.sub(r"\b(\w+::)+", "", p.split(" as ")[0].lstrip("<")) + " / " + module + "::" + m.group(2) + ("<Sharded>" if "sharding::Sharded" in m.group(3) else "")
+        ok = opens == [want]
+        ctx.ob(rule, short, ok, f"opens through {want}" if ok else f"this Reveal impl for a {module} context opens through {opens or 'nothing'} instead of {want}: the two copies of each missing share are not compared, so an altered opening message is accepted", site_of(b))
+    ctx.floor(rule, "Reveal impls", n, 7)
+
+
+def multiply_impls(ctx, facts, rule):
+    """Which multiplication each `SecureMul` impl dispatches to: the DZKP-malicious context must record the
+    multiplication in the proof (zkp_multiply), the MAC-malicious context must duplicate it on r*x (mac_multiply); only
+    semi-honest contexts may use the bare sh_multiply."""
+    ctx.rule(f"{rule}: `impl SecureMul<C>`: C in dzkp_malicious -> zkp_multiply, C in malicious -> mac_multiply, C in semi_honest / dzkp_semi_honest -> sh_multiply; exactly one multiplication routine per impl")
+    want = {"dzkp_malicious": "zkp_multiply", "malicious": "mac_multiply", "semi_honest": "sh_multiply", "dzkp_semi_honest": "sh_multiply"}
+    n = 0
+    for p, b in sorted(facts.bodies.items()):
+        m = re.search(r"<impl protocol::basics::mul::SecureMul<protocol::context::(\w+)::(\w+)<.*>> for .*>::multiply::\{closure#0\}$", p)
+        if not m or facts.is_test_path(p):
+            continue
+        module = m.group(1)
+        muls = sorted({(F.callee(t)[0] or "").split("::")[-1] for bb, t in b.calls() if re.search(r"::(zkp_multiply|mac_multiply|sh_multiply|semi_honest_multiply|multiplication_protocol)$", F.callee(t)[0] or "")})
+        n += 1
+        ctx.count(bodies=1)
+        ok = muls == [want.get(module, "?")]
+        ctx.ob(rule, f"SecureMul<{module}::{m.group(2)}>", ok, f"dispatches to {want.get(module)}" if ok else f"SecureMul for a {module} context dispatches to {muls or 'nothing'} instead of {want.get(module)}: the multiplication is not covered by the proof / MAC of that context, so a tampered product is never detected", site_of(b))
+    ctx.floor(rule, "SecureMul impls", n, 5)
